@@ -404,7 +404,233 @@ func lookupLockFacts(repo string) (lookupFacts, error) {
 	return lf, nil
 }
 
+// killErrorSticky — (*Manager).doKillTasks (core/task/manager.go). Holds iff the function has the named result `err`;
+// every call `m.doKillTask(…)` is the right-hand side of a `:=` that defines ONE new variable (a variable of the loop body,
+// never the result `err`); every assignment to `err` anywhere in the function stands in the body (not the else) of an
+// `if <that variable> != nil`, its right-hand side is a call of errors.New / fmt.Errorf (a constructor: never nil), and the
+// same block calls `m.roster.append(task)`; there is at least one such assignment; and every `return` is bare. Then the error
+// the function returns is set by EVERY failing kill and by nothing else: no later iteration — and nothing after the loop — can
+// reset it (model: Own.killErr = "some KILL call of the list failed", C06_kill_error_not_reset — C06_kill_error_is_code).
+//
+// killErrorHandedOn — Cleanup and KillTasks assign their result `err` exactly once, from `m.doKillTasks(…)`, and return bare;
+// (*RpcServer).doCleanupTasks (core/server.go) assigns its `err` only from `….Cleanup()` / `….KillTasks(…)` and returns bare;
+// doTeardownAndCleanup binds `err` from `m.doCleanupTasks(…)` and has, after that statement in the same block, an
+// `if err != nil` whose body returns a non-nil last result (model: Own.cleanupTasksErr reaches `tcFin` unchanged).
+type killErrFacts struct {
+	sticky, handedOn                               bool
+	callsLocal, assigns, assignsInFailure, returns int
+}
+
+// errAssigns collects the assignments whose left-hand side names `err` and that write the FUNCTION's variable: every `=`,
+// and a `:=` only at the top level of the function body (in a nested block `:=` declares a new variable).
+func errAssigns(fn *ast.FuncDecl) []*ast.AssignStmt {
+	top := map[ast.Stmt]bool{}
+	for _, st := range fn.Body.List {
+		top[st] = true
+	}
+	var out []*ast.AssignStmt
+	ast.Inspect(fn.Body, func(n ast.Node) bool {
+		as, ok := n.(*ast.AssignStmt)
+		if !ok {
+			return true
+		}
+		names := false
+		for _, l := range as.Lhs {
+			if id, ok := l.(*ast.Ident); ok && id.Name == "err" {
+				names = true
+			}
+		}
+		if names && (as.Tok == token.ASSIGN || top[as]) {
+			out = append(out, as)
+		}
+		return true
+	})
+	return out
+}
+
+func bareReturns(fn *ast.FuncDecl) (all bool, nonBare int) {
+	all = true
+	ast.Inspect(fn.Body, func(n ast.Node) bool {
+		if _, ok := n.(*ast.FuncLit); ok {
+			return false
+		}
+		if r, ok := n.(*ast.ReturnStmt); ok && len(r.Results) > 0 {
+			all = false
+			nonBare++
+		}
+		return true
+	})
+	return
+}
+
+func hasNamedErrResult(fn *ast.FuncDecl) bool {
+	if fn.Type.Results == nil {
+		return false
+	}
+	for _, f := range fn.Type.Results.List {
+		for _, n := range f.Names {
+			if n.Name == "err" {
+				return true
+			}
+		}
+	}
+	return false
+}
+
+func killErrorFacts(repo string) (killErrFacts, error) {
+	var kf killErrFacts
+	fset := token.NewFileSet()
+	f, err := parser.ParseFile(fset, filepath.Join(repo, "core/task/manager.go"), nil, 0)
+	if err != nil {
+		return kf, err
+	}
+	fn := findFunc(f, "doKillTasks")
+	if fn == nil {
+		return kf, fmt.Errorf("core/task/manager.go: doKillTasks not found")
+	}
+	// the kill calls and the variable each result is bound to
+	killVars := map[string]bool{}
+	allLocal := true
+	ast.Inspect(fn.Body, func(n ast.Node) bool {
+		switch x := n.(type) {
+		case *ast.AssignStmt:
+			if len(x.Rhs) == 1 && isSelCall(x.Rhs[0], ".doKillTask", fset) {
+				id, ok := x.Lhs[0].(*ast.Ident)
+				if x.Tok == token.DEFINE && len(x.Lhs) == 1 && ok && id.Name != "err" && id.Name != "_" {
+					kf.callsLocal++
+					killVars[id.Name] = true
+				} else {
+					allLocal = false
+				}
+				return false
+			}
+		case *ast.CallExpr:
+			if isSelCall(x, ".doKillTask", fset) {
+				allLocal = false // a kill whose result is used otherwise (dropped, returned, part of an expression)
+			}
+		}
+		return true
+	})
+	// every assignment to err: inside `if <killVar> != nil { … err = errors.New(…) … m.roster.append(task) … }`
+	inFailure := map[*ast.AssignStmt]bool{}
+	ast.Inspect(fn.Body, func(n ast.Node) bool {
+		is, ok := n.(*ast.IfStmt)
+		if !ok {
+			return true
+		}
+		be, ok := is.Cond.(*ast.BinaryExpr)
+		if !ok || be.Op != token.NEQ {
+			return true
+		}
+		x, ok1 := be.X.(*ast.Ident)
+		y, ok2 := be.Y.(*ast.Ident)
+		if !ok1 || !ok2 || !killVars[x.Name] || y.Name != "nil" {
+			return true
+		}
+		appends := false
+		for _, st := range is.Body.List {
+			if es, ok := st.(*ast.ExprStmt); ok && isSelCall(es.X, ".roster.append", fset) {
+				appends = true
+			}
+		}
+		for _, st := range is.Body.List {
+			as, ok := st.(*ast.AssignStmt)
+			if !ok || as.Tok != token.ASSIGN || len(as.Lhs) != 1 || len(as.Rhs) != 1 {
+				continue
+			}
+			if id, ok := as.Lhs[0].(*ast.Ident); !ok || id.Name != "err" {
+				continue
+			}
+			ctor := isSelCall(as.Rhs[0], "errors.New", fset) || isSelCall(as.Rhs[0], "fmt.Errorf", fset)
+			if ctor && appends {
+				inFailure[as] = true
+			}
+		}
+		return true
+	})
+	as := errAssigns(fn)
+	kf.assigns = len(as)
+	for _, a := range as {
+		if inFailure[a] {
+			kf.assignsInFailure++
+		}
+	}
+	_, kf.returns = bareReturns(fn)
+	kf.sticky = hasNamedErrResult(fn) && allLocal && kf.callsLocal >= 1 && kf.assigns >= 1 && kf.assigns == kf.assignsInFailure && kf.returns == 0
+
+	// handed on unchanged: Cleanup, KillTasks
+	passes := func(name string) bool {
+		g := findFunc(f, name)
+		if g == nil || !hasNamedErrResult(g) {
+			return false
+		}
+		a := errAssigns(g)
+		if len(a) != 1 || len(a[0].Rhs) != 1 || !isSelCall(a[0].Rhs[0], ".doKillTasks", fset) {
+			return false
+		}
+		bare, _ := bareReturns(g)
+		return bare
+	}
+	handed := passes("Cleanup") && passes("KillTasks")
+	// doCleanupTasks, doTeardownAndCleanup (core/server.go)
+	sf, err := parser.ParseFile(fset, filepath.Join(repo, "core/server.go"), nil, 0)
+	if err != nil {
+		return kf, err
+	}
+	if g := findFunc(sf, "doCleanupTasks"); g != nil && hasNamedErrResult(g) {
+		a := errAssigns(g)
+		okAll := len(a) >= 1
+		for _, x := range a {
+			if len(x.Rhs) != 1 || !(isSelCall(x.Rhs[0], ".Cleanup", fset) || isSelCall(x.Rhs[0], ".KillTasks", fset)) {
+				okAll = false
+			}
+		}
+		bare, _ := bareReturns(g)
+		handed = handed && okAll && bare
+	} else {
+		handed = false
+	}
+	if g := findFunc(sf, "doTeardownAndCleanup"); g != nil {
+		found := false
+		for i, st := range g.Body.List {
+			as, ok := st.(*ast.AssignStmt)
+			if !ok || len(as.Rhs) != 1 || !isSelCall(as.Rhs[0], ".doCleanupTasks", fset) {
+				continue
+			}
+			binds := false
+			for _, l := range as.Lhs {
+				if id, ok := l.(*ast.Ident); ok && id.Name == "err" {
+					binds = true
+				}
+			}
+			if !binds {
+				continue
+			}
+			for _, later := range g.Body.List[i+1:] {
+				is, ok := later.(*ast.IfStmt)
+				if !ok || exprStr(fset, is.Cond) != "err != nil" {
+					continue
+				}
+				for _, b := range is.Body.List {
+					if r, ok := b.(*ast.ReturnStmt); ok && len(r.Results) > 0 && exprStr(fset, r.Results[len(r.Results)-1]) != "nil" {
+						found = true
+					}
+				}
+			}
+		}
+		handed = handed && found
+	} else {
+		handed = false
+	}
+	kf.handedOn = handed
+	return kf, nil
+}
+
 func genFacts(repo string) (string, error) {
+	kf, err := killErrorFacts(repo)
+	if err != nil {
+		return "", err
+	}
 	mf, err := teardownMutexFacts(repo)
 	if err != nil {
 		return "", err
@@ -446,6 +672,15 @@ func genFacts(repo string) (string, error) {
 	fmt.Fprintf(&b, "def teardownLookupNestedRLock : Bool := %v\n\n", lf.callerHoldsRLock && lf.calleeRLocks)
 	fmt.Fprintf(&b, "/-- (the caller holds a read lock around the call, the callee read-locks) -/\ndef teardownLookupLocks : Bool × Bool := (%v, %v)\n\n",
 		lf.callerHoldsRLock, lf.calleeRLocks)
+	b.WriteString("/-- core/task/manager.go, doKillTasks (go/ast): the result of every `m.doKillTask(task)` is bound to a variable of the loop body,\n" +
+		"    the function's result `err` is assigned only in the branch taken when that variable is not nil, from errors.New / fmt.Errorf, next to\n" +
+		"    `m.roster.append(task)`, and every return is bare: the error is set by every failing kill and never reset -/\n")
+	fmt.Fprintf(&b, "def killErrorSticky : Bool := %v\n\n", kf.sticky)
+	b.WriteString("/-- Cleanup / KillTasks (core/task/manager.go) and doCleanupTasks / doTeardownAndCleanup (core/server.go) hand that error on\n" +
+		"    unchanged, and doTeardownAndCleanup answers an error status for it (go/ast) -/\n")
+	fmt.Fprintf(&b, "def killErrorHandedOn : Bool := %v\n\n", kf.handedOn)
+	fmt.Fprintf(&b, "/-- doKillTasks: (kill calls bound to a loop variable, assignments to `err`, of which in the failure branch as described, returns that are not bare) -/\n"+
+		"def killErrorCounts : Nat × Nat × Nat × Nat := (%d, %d, %d, %d)\n\n", kf.callsLocal, kf.assigns, kf.assignsInFailure, kf.returns)
 	b.WriteString("end Gen\n")
 	return b.String(), nil
 }
